@@ -9,48 +9,38 @@ import re
 PID = "C04"
 
 # ------------------------------------------------------------------------------------------------------------------
-# known data races of the unchanged tree: a race report is inside a finding's signature iff the innermost repository
-# function of at least one of its two accesses is in the finding's function set (function names, not line numbers)
-RACE_FINDINGS = {
-    "C04-race-memtable-time-bounds": [
-        "engine/mutable.(*MemTable).getSortedRecSafe",
-    ],
-    "C04-race-file-list-read-without-list-lock": [
-        "engine/immutable.(*MmsTables).buildFullCompactPlan",
-        "engine/immutable.(*TSSPFiles).Len",
-        "engine/immutable.(*TSSPFiles).fullCompacted",
-        "engine/immutable.(*MmsTables).GetOutOfOrderFileNum",
-        "engine/immutable.(*MmsTables).GetTableFileNum",
-    ],
-    "C04-race-wal-switch-file-list": [
-        "engine.(*WalFiles).Add",
-    ],
+# known data races of the unchanged tree.  A race report is identified by the RACING OBJECT, derived from the source
+# lines of the innermost repository frame of both accesses (the file:line of the report, read from the tree under test):
+# the struct field (or sync primitive, or indexed package-level variable) named on BOTH lines, with the struct resolved
+# from the receiver of the enclosing method or from the struct declarations of the package.  Which function PAIR the
+# detector reports depends on the schedule; the object does not.  A finding's signature is "races on <object>"; a report
+# whose object is covered by no OPEN finding is a VIOLATION.  "pkg.Type.*" = every field of that struct (the racing
+# object is the instance as a whole: an iterator / performer set closed while in use, a reader initialised lazily).
+RACE_OBJECTS = {
+    "C04-race-memtable-time-bounds": ["mutable.WriteRec.lastAppendTime", "mutable.WriteRec.firstAppendTime", "mutable.WriteRec.rec"],
+    "C04-race-file-list-read-without-list-lock": ["immutable.TSSPFiles.files", "immutable.tsspFile.ref"],
+    "C04-race-wal-switch-file-list": ["engine.WalFiles.files"],
     "C04-race-snapshot-waitgroup-and-counters": [
-        "engine.(*shard).prepareSnapshot",
-        "engine.(*shard).waitSnapshot",
-        "engine/immutable.(*MmsTables).GetFileSeq",
-        "engine/immutable.(*MmsTables).disableCompAndMerge",
-        "engine/immutable.(*MmsTables).Listen.func1",
-        "engine/immutable.(*MmsTables).isCompMergeStopped",
-        "lib/statisticsPusher/statistics.NewStoreQuery",
-        "lib/errno.needStack",
-        "lib/scheduler.(*TaskGroup).Add.func1",
-        "lib/statisticsPusher/statistics.(*MergeStatistics).SetCurrentOutOfOrderFile",   # gauge written by every merger goroutine
-        "engine/index/tsi.(*tsIndexImpl).run.func1",
+        "engine.shard.snapshotWg",                   # WaitGroup: Add (prepareSnapshot) unordered with Wait (waitSnapshot)
+        "immutable.MmsTables.wg",                    # WaitGroup: Add when a merge / hot task starts unordered with Wait (DisableCompAndMerge, Close)
+        "immutable.MmsTables.stopCompMerge",         # stop channel variable written under inCompLock, read without it
+        "immutable.MmsTables.fileSeq",
+        "statistics.BaseCollector.enabled",          # singleton.enabled = true in every statistics.NewXxx()
+        "statistics.MergeStatistics.itemCurrentOutOfOrderFile",   # gauge written by every merger goroutine
+        "errno.stackStat",                           # per-errno time stamp that throttles stack logging
+        "scheduler.TaskGroup.ref",
     ],
     "C04-race-merge-and-compaction-iterators": [
-        "engine/immutable.(*MergePerformers).Swap", "engine/immutable.(*MergePerformers).Push",
-        "engine/immutable.(*MergePerformers).Pop", "engine/immutable.(*MergePerformers).Closed",
-        "engine/immutable.(*MergePerformers).Less", "engine/immutable.(*MergePerformers).Len",
-        "engine/immutable.(*MergePerformers).Close", "engine/immutable.(*MergePerformers).Next",
-        "engine/immutable.(*ColumnIterator).Close", "engine/immutable.(*ColumnIterator).isClosed",
-        "engine/immutable.(*FileIterator).NextChunkMeta", "engine/immutable.(*ChunkIterators).Next",
-        "engine/immutable.(*tsspFileReader).LoadComponents", "engine/immutable.(*tsspFileReader).ReadMetaBlock",
+        "immutable.MergePerformers.*", "immutable.mergePerformer.*", "immutable.ColumnIterator.*", "immutable.FileIterator.*",
+        "immutable.ChunkIterators.*", "immutable.tsspFileReader.*",
     ],
 }
-# function-name patterns (same benign pattern in many functions: singleton.enabled = true in every statistics.NewXxx())
-RACE_PATTERNS = {
-    "C04-race-snapshot-waitgroup-and-counters": [r"^lib/statisticsPusher/statistics\.New\w+$"],
+# reports whose object cannot be derived from the two source lines (no selector in common: an element of a reused
+# slice reached through different variables): innermost repository functions of BOTH accesses must be in the set
+RACE_FUNCS_FALLBACK = {
+    "C04-race-snapshot-waitgroup-and-counters": [
+        {"engine/index/tsi.(*IndexBuilder).CreateIndexIfNotExists", "engine/index/tsi.(*tsIndexImpl).run.func1"},
+    ],
 }
 ORPHAN = "C04-orphaned-out-of-order-list"
 REENTRY = "C04-reentrant-engine-rlock"
@@ -240,6 +230,122 @@ def in_orphan_signature(specs, sched):
     return False
 
 
+_struct_cache = {}
+_pkgvar_cache = {}
+SYNC_METHODS = {"Wait", "Add", "Done", "Lock", "Unlock", "RLock", "RUnlock", "Store", "Load", "Swap", "CompareAndSwap"}
+
+
+def _pkg_files(pkgdir):
+    try:
+        return [os.path.join(pkgdir, f) for f in sorted(os.listdir(pkgdir)) if f.endswith(".go") and not f.endswith("_test.go")]
+    except OSError:
+        return []
+
+
+def structs_of(pkgdir):
+    """struct name -> set of field names (incl. embedded type names), from the package's sources"""
+    if pkgdir in _struct_cache:
+        return _struct_cache[pkgdir]
+    res = {}
+    for f in _pkg_files(pkgdir):
+        t = open(f, errors="replace").read()
+        for m in re.finditer(r"\ntype\s+(\w+)\s+struct\s*\{(.*?)\n\}", t, re.S):
+            fields = set()
+            for ln in m.group(2).split("\n"):
+                ln = ln.split("//")[0].strip()
+                if not ln:
+                    continue
+                mm = re.match(r"^([\w,\s]+?)\s+[\*\[\]\w\.\(\{<]", ln)
+                if mm:
+                    fields.update(n.strip() for n in mm.group(1).split(",") if re.fullmatch(r"\w+", n.strip()))
+                else:
+                    mm = re.match(r"^\*?(?:\w+\.)?(\w+)$", ln)
+                    if mm:
+                        fields.add(mm.group(1))
+            res.setdefault(m.group(1), set()).update(fields)
+    _struct_cache[pkgdir] = res
+    return res
+
+
+def pkgvars_of(pkgdir):
+    if pkgdir in _pkgvar_cache:
+        return _pkgvar_cache[pkgdir]
+    res = set()
+    for f in _pkg_files(pkgdir):
+        t = open(f, errors="replace").read()
+        res.update(re.findall(r"^var\s+(\w+)\b", t, re.M))
+        for blk in re.findall(r"^var\s*\((.*?)^\)", t, re.S | re.M):
+            res.update(re.findall(r"^\s+(\w+)\b", blk, re.M))
+    _pkgvar_cache[pkgdir] = res
+    return res
+
+
+def _frames(block):
+    lines = block.strip().split("\n")
+    out = []
+    for i in range(1, len(lines) - 1, 2):
+        m = re.match(r"(.*):(\d+)$", lines[i + 1].strip().split(" +")[0])
+        if m:
+            out.append((re.sub(r"\(\)$", "", lines[i].strip()), m.group(1), int(m.group(2))))
+    return out
+
+
+def _side(block):
+    """innermost repository frame of one access: (function, file, line, set of (owner struct or None, name), set of indexed package vars)"""
+    for fn, path, ln in _frames(block):
+        if "openGemini/openGemini/" not in fn:
+            continue
+        try:
+            L = open(path, errors="replace").read().split("\n")
+        except OSError:
+            return fn.split("openGemini/openGemini/", 1)[1], path, ln, set(), set()
+        line = (L[ln - 1] if 0 < ln <= len(L) else "").split("//")[0]
+        recv = None
+        for i in range(min(ln, len(L)) - 1, -1, -1):
+            m = re.match(r"^func \((\w+) \*?(\w+)(?:\[.*\])?\)", L[i])
+            if m:
+                recv = (m.group(1), m.group(2))
+                break
+            if re.match(r"^func ", L[i]):
+                break
+        cands = set()
+        for sel in re.findall(r"[A-Za-z_]\w*(?:\.[A-Za-z_]\w*)+", line):
+            parts = sel.split(".")
+            if parts[-1] in SYNC_METHODS and len(parts) >= 3:
+                parts = parts[:-1]          # m.wg.Wait -> the object is m.wg
+            for k in range(1, len(parts)):
+                owner = recv[1] if (recv and k == 1 and parts[0] == recv[0]) else None
+                cands.add((owner, parts[k]))
+        pv = pkgvars_of(os.path.dirname(path))
+        indexed = {v for v in re.findall(r"\b([A-Za-z_]\w*)\[", line) if v in pv}
+        return fn.split("openGemini/openGemini/", 1)[1], path, ln, cands, indexed
+    return None
+
+
+def race_object(text):
+    """'pkg.Type.field' / 'pkg.TypeA|TypeB.field' / 'pkg.var' of a race report, None if it cannot be derived"""
+    blocks = re.split(r"\n\s*\n", text.strip())
+    if len(blocks) < 2:
+        return None
+    a, b = _side(blocks[0]), _side(blocks[1])
+    if not a or not b:
+        return None
+    pkg = os.path.basename(os.path.dirname(a[1]))
+    if a[4] & b[4]:
+        return "%s.%s" % (pkg, sorted(a[4] & b[4])[0])
+    common = {f for _, f in a[3]} & {f for _, f in b[3]}
+    best = None
+    for f in sorted(common):
+        owners = {o for o, ff in (a[3] | b[3]) if ff == f and o}
+        if not owners:
+            for path in (a[1], b[1]):
+                owners.update(sn for sn, fields in structs_of(os.path.dirname(path)).items() if f in fields)
+        cand = (0 if len(owners) == 1 else 1, -len(f), "%s.%s.%s" % (pkg, "|".join(sorted(owners)) if owners else "?", f))
+        if best is None or cand < best:
+            best = cand
+    return best[2] if best else None
+
+
 def race_reports(text):
     reps = []
     for r in text.split("WARNING: DATA RACE")[1:]:
@@ -258,17 +364,36 @@ def race_reports(text):
             sides.append((lines[0].strip().split(" at ")[0], fn, loc))
         while len(sides) < 2:
             sides.append(("?", "?", "?"))
-        reps.append({"a": sides[0], "b": sides[1], "text": "WARNING: DATA RACE" + r[:6000]})
+        try:
+            obj = race_object(r)
+        except Exception as e:          # never read a failure of the extractor as "known"
+            obj = None
+        reps.append({"a": sides[0], "b": sides[1], "obj": obj, "text": "WARNING: DATA RACE" + r[:6000]})
     return reps
 
 
+def object_matches(obj, pattern):
+    if obj is None:
+        return False
+    parts = obj.split(".")
+    pp = pattern.split(".")
+    if len(parts) == 2 or len(pp) == 2:
+        return obj == pattern
+    if parts[0] != pp[0] or pp[1] not in parts[1].split("|"):
+        return False
+    return pp[2] == "*" or pp[2] == parts[2]
+
+
 def classify_race(rep):
+    """finding id whose signature covers the report's racing object, else None"""
+    if rep.get("obj"):
+        for fid, pats in RACE_OBJECTS.items():
+            if any(object_matches(rep["obj"], p) for p in pats):
+                return fid
+        return None
     fns = {rep["a"][1], rep["b"][1]}
-    for fid, funcs in RACE_FINDINGS.items():
-        if fns & set(funcs):
-            return fid
-    for fid, pats in RACE_PATTERNS.items():
-        if any(re.search(p, f) for p in pats for f in fns):
+    for fid, sets in RACE_FUNCS_FALLBACK.items():
+        if any(fns <= st for st in sets):
             return fid
     return None
 
@@ -814,8 +939,8 @@ def main(ck):
         else:
             unknown.append(r)
     for fid, rs in sorted(by.items()):
-        pairs = sorted({" <-> ".join(sorted([x["a"][1], x["b"][1]])) for x in rs})
-        ck.known_finding(fid, "race detector: %d report(s): %s" % (len(rs), "; ".join(pairs)[:900]))
+        objs = sorted({x.get("obj") or "(fallback) " + " <-> ".join(sorted([x["a"][1], x["b"][1]])) for x in rs})
+        ck.known_finding(fid, "race detector: %d report(s) on object(s): %s" % (len(rs), "; ".join(objs)[:900]))
     seen = set()
     for r in unknown:
         key = tuple(sorted([r["a"][1], r["b"][1]]))
@@ -824,8 +949,8 @@ def main(ck):
         seen.add(key)
         if len(seen) > 3:
             break
-        ck.violation({"kind": "data-race", "what": "race detector report outside every known signature: %s (%s) <-> %s (%s)"
-                      % (r["a"][1], r["a"][2], r["b"][1], r["b"][2]), "report": r["text"]})
+        ck.violation({"kind": "data-race", "what": "race detector report on an object no open finding covers: object %s; %s (%s) <-> %s (%s)"
+                      % (r.get("obj") or "<not derivable from the source lines>", r["a"][1], r["a"][2], r["b"][1], r["b"][2]), "report": r["text"]})
     ck.cov["race_reports"] = {"total": len(reps), "known": {k: len(v) for k, v in by.items()}, "unknown": len(unknown), "harness_internal": n_harness}
     ck.cov["rule"] = ("forced schedules: model-guided (full enumeration of system A sampled, seeded random walks over the enabled "
                       "macro steps of systems B-E, plus the witness corpus); non-trivial = the schedule contains a write, a flush "
